@@ -832,3 +832,101 @@ def _c04_accessor(data, nodata, p, mode, name):
                 if not np.array_equal(band[:, yy, xx], o) or abs(sg - np.float32(np.log10(l))) > 1e-6:
                     problems.append(f"pixel ({yy},{xx}) p={pp}: band/sgrid differ from the kernel selected by (lc, p)")
     return {"violates": bool(problems), "why": problems[:3]}
+
+
+# ------------------------------------------------------------------ C05
+def _gcv_scores(y, w, llas):
+    m = len(y)
+    eigs = -2 + 2 * np.cos(np.arange(m) * np.pi / m)
+    eigs[0] = 1e-15
+    n = w.sum()
+    out = []
+    for l in llas:
+        lam = 10.0 ** l
+        z = _pls(y, w, lam)
+        trh = np.sum(w / (w + lam * eigs ** 2))
+        wsse = np.sum(w * (y - z) ** 2)
+        out.append(wsse / (n * (1 - trh / n) ** 2))
+    return np.array(out)
+
+
+def c05_gcv(kernel, data=None, nodata=-3000, p=None, l0=None, lstep=None, grid=None, robust=False, shape=None, mode=None, detail=None):
+    from hdc.algo import ops
+    rng = np.random.default_rng(29)
+    if kernel == "whitswcv":
+        return _c05_accessor(mode, robust)
+    p = float(p) if p is not None and 0 < float(p) < 1 else 0.9
+    if robust:
+        # degenerate residual distributions: constant, exactly linear, flat with a few spikes
+        probs = []
+        g = np.arange(-1.8, 4.2, 0.2)
+        shapes = {"constant": np.full(24, 1200.0), "linear": np.arange(10, 30, 2).astype("float64") * 10,
+                  "linear_long": 500.0 + 25.0 * np.arange(30), "flat_spikes": np.array([1000.0] * 30)}
+        shapes["flat_spikes"][[5, 17]] = [1900.0, 400.0]
+        for nm, y in shapes.items():
+            for kn in ("ws2dwcv", "ws2dwcvp"):
+                o, l = _run_smoother(kn, y.copy(), nodata, p=p, llas=g, robust=True)
+                if not np.isfinite(l) or (np.all(o == 0) and np.any(y != 0)) or np.max(np.abs(o - y)) > 0.5 * (np.ptp(y) + 1) + 1:
+                    probs.append(f"{kn} robust on {nm} series: lambda={l}, output[:6]={o[:6].tolist()}")
+        return {"violates": bool(probs), "why": probs[:4]}
+    valid = np.array([v is not None for v in data])
+    grids = []
+    if l0 is not None and -4 <= float(l0) <= 4 and 0.05 <= float(lstep) <= 3:
+        grids.append(np.array([float(l0) + k * float(lstep) for k in range(int(grid))]))
+    grids += [np.arange(-1.8, 4.2, 0.2), np.arange(-2, 3.0, 1.0)]
+    series = []
+    for L in (12, 24, 36, 36, 48):
+        t = np.arange(L)
+        s = np.round(3000 + 2500 * np.sin(2 * np.pi * t / 12.0) + rng.normal(0, 400, L))
+        vm = np.array([valid[int(i * len(valid) / L)] for i in range(L)])
+        series.append((s, vm))
+    for s, vm in series:
+        y = np.where(vm, s, nodata).astype("float64")
+        w = vm.astype("float64")
+        yy = np.where(vm, y, 0.0)
+        for g in grids:
+            for pp in ([None] if kernel == "ws2dwcv" else [p, 0.5]):
+                o, l = _run_smoother(kernel, y, nodata, p=pp, llas=g.astype("float64"), robust=False)
+                sc = _gcv_scores(yy, w, g)
+                k = np.argmin(np.abs(10.0 ** g - l))
+                probs = []
+                if abs(10.0 ** g[k] - l) > 1e-9 * l:
+                    probs.append(f"lambda {l} is not in 10**srange")
+                elif sc[k] > sc.min() * (1 + 1e-9):
+                    probs.append(f"lambda 10**{g[k]:.2f} has GCV {sc[k]:.6g}, grid minimum {sc.min():.6g} at 10**{g[np.argmin(sc)]:.2f}")
+                band = ops.ws2dgu(y, l, nodata) if pp is None else ops.ws2dpgu(y, l, nodata, pp)
+                if not np.array_equal(o, band.astype("float64")):
+                    probs.append("band differs from the fixed-lambda smoother at the reported lambda")
+                if probs:
+                    return {"violates": True, "why": probs, "y": y, "llas": g, "p": pp}
+    return {"violates": False}
+
+
+def _c05_accessor(mode, robust):
+    import xarray as xr
+    import hdc.algo  # noqa
+    from hdc.algo import ops
+    rng = np.random.default_rng(31)
+    T = 24
+    t = np.arange(T)
+    cube = np.round(3000 + 2500 * np.sin(2 * np.pi * t / 12.0)[:, None, None] + rng.normal(0, 400, (T, 1, 2))).astype("int16")
+    da = xr.DataArray(cube, dims=("time", "y", "x"), attrs={"nodata": -3000})
+    kw = {}
+    if mode == "p":
+        kw["p"] = 0.9
+    if robust is not None:
+        kw["robust"] = robust
+    ds = da.hdc.whit.whitswcv(-3000, **kw)
+    rb = True if robust is None else robust
+    g = np.arange(-1.8, 4.2, 0.2)
+    probs = []
+    if set(ds.data_vars) != {"band", "sgrid"} or str(ds["sgrid"].dtype) != "float32":
+        probs.append(f"dataset {list(ds.data_vars)} / sgrid dtype {ds['sgrid'].dtype}")
+    else:
+        band = ds["band"].transpose("time", "y", "x").values
+        for xx in range(2):
+            y = cube[:, 0, xx].astype("float64")
+            o, l = (ops.ws2dwcvp(y, -3000, 0.9, g, rb) if mode == "p" else ops.ws2dwcv(y, -3000, g, rb))
+            if not np.array_equal(band[:, 0, xx], o) or abs(float(ds["sgrid"].values[0, xx]) - np.float32(np.log10(l))) > 1e-6:
+                probs.append(f"pixel {xx}: accessor result differs from the kernel with the documented defaults")
+    return {"violates": bool(probs), "why": probs}
